@@ -13,8 +13,8 @@ import (
 	"testing"
 	"time"
 
-	pcodecs "github.com/pion/rtp/codecs"
 	"github.com/pion/rtcp"
+	pcodecs "github.com/pion/rtp/codecs"
 	"pgregory.net/rapid"
 
 	"github.com/jech/galene/codecs"
@@ -26,8 +26,8 @@ type fwdOracles struct {
 }
 
 type sentRec struct {
-	e   int
-	pkt capPkt
+	e        int
+	pkt      capPkt
 	sidEpoch int // number of spatial-layer changes observed before it was first sent
 }
 
@@ -52,10 +52,10 @@ type fwdHarness struct {
 	log    []string
 	// classes
 	nLate, nDup, nRetx, nRetxShifted, nMarkerSet, nPidShift, nWithheldFrames int
-	knownMarker bool
-	sidEpoch    int
-	lastSid     uint8
-	nExclMarker int
+	knownMarker                                                              bool
+	sidEpoch                                                                 int
+	lastSid                                                                  uint8
+	nExclMarker                                                              int
 }
 
 func (h *fwdHarness) logf(f string, a ...any) {
